@@ -700,7 +700,7 @@ func (ev *evidenceBuilder) write(reports []*harnessReport, viols []*Violation, v
 		"assertion_queries_unsat":       discharged,
 		"solver_queries":                queries,
 		"solver_time_s":                 solverTime,
-		"solver":                        "z3 4.8.12 (-in, incremental push/pop)",
+		"solver":                        envOr("VSYM_SOLVER", "z3-new") + " (-in, incremental push/pop; z3-new = z3 5.1.0, z3 = 4.8.12)",
 		"bounds":                        ev.spec.Bounds[ev.tier],
 		"outside_the_claim":             ev.spec.Outside,
 		"inconclusive":                  inconclusive,
@@ -728,4 +728,3 @@ func (ev *evidenceBuilder) write(reports []*harnessReport, viols []*Violation, v
 	os.WriteFile(filepath.Join(ev.vd, "evidence", ev.id+".json"), b, 0o644)
 }
 
-func cmdSelftest(args []string) int { return 0 }
